@@ -22,7 +22,7 @@ def run(c):
     c.tlc_must_pass("TxnStoreMC", c.pick("TxnStoreMC.cfg", "TxnStoreMC_thorough.cfg"), workers=8, timeout=c.pick(300, 1500))
     progs = c.pick(1, 24)
     g = _txncfg.gen(c, "f", MaxTxns=3, MaxOps=10, Keys=10, Slots=[2, 4], Rollbacks=False)
-    cfg = _txncfg.cfg(c, "fault", progs, g, max_fault=0)
+    cfg = _txncfg.cfg(c, "fault", progs, g, max_fault=0, directed_max=c.pick(24, 0))
     os.environ["VERIF_MAXTIME_MS"] = "3000"   # a blocked retry is recognised by its commit not finishing within 3 s without contention
     traces = txnlib.run_driver(c, binp, "fault", cfg, timeout=c.pick(900, 6000))
     os.environ.pop("VERIF_MAXTIME_MS")
